@@ -252,6 +252,38 @@ class ListOf(Ty):
         return SList(n, elem, uid)
 
 
+class MListOf(Ty):
+    """A *mutable* list of symbolic length whose elements are ints / bools / strings or tuples of these
+    (pyvc.mlist.MList): results accumulated in loops, out-parameters.  In `M.loop(... modifies=...)` the
+    list is havocked in place."""
+
+    def __init__(self, elem):
+        self.elem = elem
+
+    def shape(self):
+        return _mshape(self.elem)
+
+    def make(self, interp, name):
+        from .mlist import MList
+        m = MList(interp, interp.st.fresh_name(name), self.shape())
+        n = interp.st.fresh_int(name + '.len')
+        interp.st.assume(n >= 0)
+        m.length = n
+        return m
+
+
+def _mshape(ty):
+    if isinstance(ty, FixedList):
+        return ('tuple', tuple(_mshape(t) for t in ty.elems))
+    if isinstance(ty, _Int):
+        return ('int',)
+    if isinstance(ty, _Bool):
+        return ('bool',)
+    if isinstance(ty, _Str):
+        return ('str',)
+    raise Unsupported('MListOf element type %r' % (ty,))
+
+
 class IterOf(Ty):
     """An iterator over a sequence of symbolic length (e.g. the lines of a file), positioned at its start.
     In clauses: `it.xs` is the underlying sequence, `it.pos` the number of items consumed so far."""
